@@ -42,6 +42,9 @@ func runMode(mode string, rep *Report, replay string) bool {
 	case "store":
 		runStore(rep, replay)
 		return true
+	case "sched":
+		runSched(rep, replay)
+		return true
 	case "known":
 		if replay == "" {
 			runKnown(rep)
